@@ -58,7 +58,7 @@ def py_to_pv(v):
 def strip_flags(j):
     """drop the construction-only flags (int / tuple) before comparing or sending to the model"""
     if isinstance(j, dict):
-        return {k: strip_flags(v) for k, v in j.items() if k not in ("int", "tuple")}
+        return {k: strip_flags(v) for k, v in j.items() if k not in ("int", "tuple", "assembly")}
     if isinstance(j, list):
         return [strip_flags(x) for x in j]
     return j
@@ -70,9 +70,24 @@ def build_obj(o):
     if np.dtype(dt).kind != "c":
         vals = vals.real
     vals = vals.astype(dt).reshape(o["shape"])
-    d = dnp.DNPData(vals, list(o["dims"]), [np.array([float(Fraction(x)) for x in c]) for c in o["coords"]],
-                    attrs={k: pv_to_py(v) for k, v in o["attrs"]}, dnplab_attrs={k: pv_to_py(v) for k, v in o["dattrs"]},
-                    proc_attrs=[(n, {k: pv_to_py(v) for k, v in ps}) for n, ps in o["hist"]])
+    attrs = {k: pv_to_py(v) for k, v in o["attrs"]}
+    dattrs = {k: pv_to_py(v) for k, v in o["dattrs"]}
+    hist = [(n, {k: pv_to_py(v) for k, v in ps}) for n, ps in o["hist"]]
+    coords = [np.array([float(Fraction(x)) for x in c]) for c in o["coords"]]
+    how = o.get("assembly", "ctor")
+    if how == "ctor":
+        return dnp.DNPData(vals, list(o["dims"]), coords, attrs=attrs, dnplab_attrs=dattrs, proc_attrs=hist)
+    # the same object reached another way: built with OTHER attributes / history, which are then replaced as a whole through
+    # the public setters (directly, or on a copy of the first object)
+    d = dnp.DNPData(vals, list(o["dims"]), coords, attrs={"stale_key": "stale", "nmr_frequency": -1.0},
+                    dnplab_attrs={"stale_d": 1}, proc_attrs=[("stale_step", {"p": 0})])
+    if how == "copy-then-setters":
+        d = d.copy()
+    d.attrs = attrs
+    d.dnplab_attrs = dattrs
+    d.proc_attrs = hist
+    if how == "copy-after-setters":
+        d = d.copy()
     return d
 
 
